@@ -63,7 +63,13 @@ class HttpRelayClient(RelayPoolClient):
         result, envelope = self.poll()
         if result and envelope:
             self.idle = False
-            self._handle_request(result, envelope)
+            try:
+                self._handle_request(result, envelope)
+            except BaseException as exc:
+                if not result.ready():
+                    msg = 'HTTP delivery failed: '+str(exc)
+                    result.set_exception(TransientRelayError(msg))
+                raise
         else:
             if self.conn:
                 self.conn.close()
